@@ -17,7 +17,7 @@ import random
 from concurrent.futures import ThreadPoolExecutor
 from ..core import Check, MachineryFailure
 from ..stdp_eval import evaluate, stdp_params
-from .stdp_common import run_tlc, emitted, bits, Mismatch, compare, c08_hp, spec_rule
+from .stdp_common import run_tlc, emitted, bits, Mismatch, compare, c08_hp, spec_rule, with_form, multi_cells
 from . import stdp_traces
 
 PID = "C08"
@@ -55,8 +55,12 @@ def horizon(tier, rule):
 
 
 # ------------------------------------------------------------------ binding A (i): population
+def hp_keys(hp):
+    return [k for k in hp if k.startswith("lr_") or k.startswith("tc_")]
+
+
 def population(chk, tab, mm, *, variant, mode, delayed, sp, sn, dt, dyadic, shift, T, rng, deviate=None,
-               count=True):
+               count=True, form="float", via="ctor"):
     """Dense n x n cell, n = 2^T: input i carries pre history H[i], output o is forced to post
     history H[o]; synapse (o, i) has delay (o + i + shift) mod 3 steps (shift None: a
     connection without delays).  Every (pre, post) history pair is one synapse."""
@@ -66,11 +70,12 @@ def population(chk, tab, mm, *, variant, mode, delayed, sp, sn, dt, dyadic, shif
     H = bits(T)
     n = len(H)
     hp = c08_hp(variant, mode, sp, sn, dt, rng, dyadic, delayed)
+    hp = with_form(hp, hp_keys(hp), form, rng)
     D = [[0 if shift is None else (o + i + shift) % 3 for i in range(n)] for o in range(n)]
     hdr = {"rule": variant, "hp": hp, "conn": {"kind": "dense", "M": n, "N": n}, "dt": dt, "B": 1,
-           "reduction": rng.choice(["sum", "mean"]), "dmax": None if shift is None else 2, "delay": D}
+           "reduction": rng.choice(["sum", "mean"]), "dmax": None if shift is None else 2, "delay": D, "via": via}
     sig = {"site": "population", "rule": variant, "mode": mode, "delayed": bool(delayed and shift is not None),
-           "delays": shift is not None}
+           "delays": shift is not None, "form": form, "via": via}
     three = rule in ("mstdp", "mstdpet")
     try:
         run = Run(hdr)
@@ -132,7 +137,7 @@ def population(chk, tab, mm, *, variant, mode, delayed, sp, sn, dt, dyadic, shif
 
 # ------------------------------------------------------------------ binding A (ii): 1x1 cells
 def cell_1x1(chk, tab, mm, *, variant, mode, delayed, sp, sn, dt, dyadic, d, B, reduction, persample, T, rng,
-             count=True):
+             count=True, form="float", via="ctor"):
     """Serial(LinearDense 1->1 + DeltaCurrent, ExactNeuron), batch B: one history pair per
     sample; scalar or per-sample reward; compare per step and after update()."""
     import torch
@@ -142,12 +147,13 @@ def cell_1x1(chk, tab, mm, *, variant, mode, delayed, sp, sn, dt, dyadic, d, B, 
     if three and persample:
         reduction = "sum"   # documented: with per-sample signals the parts are split before reducing
     hp = c08_hp(variant, mode, sp, sn, dt, rng, dyadic, delayed)
+    hp = with_form(hp, hp_keys(hp), form, rng)
     xs = [tuple(rng.randint(0, 1) for _ in range(T)) for _ in range(B)]
     ys = [tuple(rng.randint(0, 1) for _ in range(T)) for _ in range(B)]
     hdr = {"rule": variant, "hp": hp, "conn": {"kind": "dense", "M": 1, "N": 1}, "dt": dt, "B": B,
-           "reduction": reduction, "dmax": None if d is None else 2, "delay": d}
+           "reduction": reduction, "dmax": None if d is None else 2, "delay": d, "via": via}
     sig = {"site": "cell-1x1", "rule": variant, "mode": mode, "delayed": bool(delayed and d is not None),
-           "delays": d is not None}
+           "delays": d is not None, "form": form, "via": via}
     dd = 0 if d is None else d
     try:
         run = Run(hdr)
@@ -199,6 +205,36 @@ def cell_1x1(chk, tab, mm, *, variant, mode, delayed, sp, sn, dt, dyadic, d, B, 
     return edges
 
 
+# ------------------------------------------------------------------ several cells on one trainer
+def cells_on_one_trainer(chk, tab, mm, *, variant, rng, T, guards):
+    rule = spec_rule(variant)
+    three = rule in ("mstdp", "mstdpet")
+    n = 3 if guards else 2
+    dyadic = rng.random() < 0.25
+    hdrs = []
+    for j in range(n):
+        sp, sn = rng.choice(SIGNS)
+        dt = rng.choice([1.0, 0.5]) if dyadic else rng.choice([1.0, 1.3])
+        d = rng.choice([None, 0, 1, 2])
+        hp = c08_hp(variant, rng.choice(["cumulative", "nearest"]), sp, sn, dt, rng, dyadic,
+                    variant != "mstdpet" and rng.random() < 0.5)
+        hp = with_form(hp, hp_keys(hp), rng.choice(["float", "t0", "mixed"]), rng)
+        hdrs.append({"rule": variant, "hp": hp, "conn": {"kind": "dense", "M": 1, "N": 1}, "dt": dt, "B": 1,
+                     "reduction": rng.choice(["sum", "mean"]), "dmax": None if d is None else 2, "delay": d})
+
+    def expect(j, xh, yh, t, r, _d):
+        return [expected(tab, rule, hdrs[j]["hp"]["mode"], hdrs[j]["delay"] or 0, xh, yh, t, r)]
+
+    def params(j, factor):
+        return stdp_params(dict(hdrs[j]["hp"], scale=factor), hdrs[j]["dt"])
+
+    def on_edge(j, xh, yh, t, r, _d):
+        chk.nontrivial.add(("multi", rule, hdrs[j]["hp"]["mode"], hdrs[j]["delay"] or 0, xh[:t + 1], yh[:t + 1], r))
+
+    return multi_cells(chk, mm, variant=variant, hdrs=hdrs, via=rng.choice(["ctor", "override"]), T=T, rng=rng,
+                       three=three, dyadic=dyadic, expect=expect, params=params, guards=guards, on_edge=on_edge)
+
+
 # ------------------------------------------------------------------ the check
 def run(tier: str, seed: int) -> int:
     chk = Check(PID, tier, seed)
@@ -231,13 +267,15 @@ def run(tier: str, seed: int) -> int:
                 for k, (sp, sn) in enumerate(SIGNS):
                     shifts = [None, 0, 1, 2] if not quick else [rng.choice([0, 1, 2])] + ([None] if k == 0 else [])
                     for shift in shifts:
-                        if shift is None and delayed:
-                            continue
+                        # (shift None and delayed: the trainer asks for "delayed" on a connection
+                        #  without delays - it must behave like the plain rule)
                         dyadic = rng.random() < 0.25
                         dt = rng.choice([1.0, 0.5]) if dyadic else rng.choice([1.0, 1.3])
                         before = len(mm)
                         edges += population(chk, tab, mm, variant=variant, mode=mode, delayed=delayed, sp=sp, sn=sn,
-                                            dt=dt, dyadic=dyadic, shift=shift, T=T, rng=rng)
+                                            dt=dt, dyadic=dyadic, shift=shift, T=T, rng=rng,
+                                            form=rng.choice(["float", "t0", "mixed"]),
+                                            via=rng.choice(["ctor", "override"]))
                         if len(mm) > before and len(mm) > 200:
                             break
     chk.note(f"population replay: {edges} (synapse, step) comparisons, mismatches={len(mm)}")
@@ -253,11 +291,22 @@ def run(tier: str, seed: int) -> int:
         d = rng.choice([None, 0, 1, 2])
         dyadic = rng.random() < 0.25
         e11 += cell_1x1(chk, tab, mm, variant=variant, mode=rng.choice(["cumulative", "nearest"]),
-                        delayed=(variant != "mstdpet" and d is not None and rng.random() < 0.5), sp=sp, sn=sn,
+                        delayed=(variant != "mstdpet" and rng.random() < 0.5), sp=sp, sn=sn,
                         dt=(rng.choice([1.0, 0.5]) if dyadic else rng.choice([1.0, 1.3])), dyadic=dyadic, d=d,
                         B=rng.choice([1, 2, 3]), reduction=rng.choice(["sum", "mean"]),
-                        persample=rng.random() < 0.5, T=T, rng=rng)
+                        persample=rng.random() < 0.5, T=T, rng=rng, form=rng.choice(["float", "t0", "mixed"]),
+                        via=rng.choice(["ctor", "override"]))
     chk.note(f"1x1 cells: {n11} runs, {e11} (sample, step) comparisons, mismatches so far={len(mm)}")
+    nmc = 72 if quick else 720
+    emc = 0
+    for j in range(nmc):
+        variant = VARIANTS[j % len(VARIANTS)]
+        emc += cells_on_one_trainer(chk, tab, mm, variant=variant, rng=rng, guards=(j // len(VARIANTS)) % 3 == 0,
+                                    T=Tg if spec_rule(variant) in ("stdp", "triplet") else T3g)
+    chk.note(f"several cells on one trainer (own hyperparameters, cells=..., guards): {nmc} runs, {emc} (cell, step) "
+             f"comparisons, mismatches so far={len(mm)}")
+    e11 += emc
+    chk.traces += nmc
     chk.extra["cell_runs"] = n11
     chk.evaluations += edges + e11
     chk.traces += n11
